@@ -72,6 +72,16 @@ def main(repo, _out=None):
         keys.append(m.group(1) if m.group(1) is not None else "<event-fields>")
     trailing_nl = bool(re.search(r"writeln!\(\s*writer\s*\)\s*$", norm(body)))
     fe_uses_event_parent = bool(re.search(r"\bparent_span\(\)|\bevent_span\(|\bevent_scope\(", body))
+    # metadata shown: the event's own, or (tracing-log build) the normalised metadata of an event that came from the `log` crate
+    nb = norm(body)
+    normalised = ('#[cfg(feature = "tracing-log")] let normalized_meta = event.normalized_metadata();' in nb
+                  and '#[cfg(feature = "tracing-log")] let meta = normalized_meta.as_ref().unwrap_or_else(|| event.metadata());' in nb
+                  and '#[cfg(not(feature = "tracing-log"))] let meta = event.metadata();' in nb)
+    if not normalised:
+        unrec.append("format_event: metadata selection (normalized_metadata under cfg(feature = tracing-log)) not recognised")
+    for key, expr in (("level", "&meta.level().as_serde()"), ("target", "meta.target()"), ("filename", "filename"), ("line_number", "&line_number")):
+        if ('serialize_entry("%s", %s)' % (key, expr)) not in nb:
+            unrec.append("format_event: `%s` is not written from the selected metadata" % key)
 
     # ---- SerializableSpan
     sp = impl_body(src, r"impl\s*<[^{]*?>\s*serde::ser::Serialize\s+for\s+SerializableSpan\b[^{]*\{", unrec, "impl Serialize for SerializableSpan")
@@ -254,6 +264,7 @@ def main(repo, _out=None):
         "Definition gen_lifecycle : list string := %s." % coq_strs(lifecycle),
         "Definition gen_lifecycle_parent_is_span : bool := %s." % b(life_parent),
         "Definition gen_timing_off_without_time : bool := %s." % b(timing_off),
+        "Definition gen_metadata_normalised_under_log : bool := %s." % b(normalised),
         "Definition gen_serde_json_version : string := %s." % coq_str(ver or ""),
         "Definition gen_escape_table : list nat := [%s]." % "; ".join(str(x) for x in esc_table),
         "Definition gen_json_unrecognised : list string := %s." % coq_strs(unrec),
